@@ -134,7 +134,7 @@ def run_check(prop, tier, seed, replay=None):
     h = prop.harness
     okh, exe, hlog = core.build_harness(h["name"], h["source"], h.get("repo_srcs", ()),
                                         h.get("flags", ()), h.get("extra_sources", ()),
-                                        h.get("san", True))
+                                        h.get("san", True), "", h.get("shared_libs", ()))
     cases, impl, model, verdicts, feats, crashes = [], [], [], [], [], []
     static_problems = []
     if not okh:
